@@ -278,15 +278,24 @@ def r07h(ctx):
     c = model.cls("LocSlice", "_indexing")
     fn = model.method(c, "_layer", own=True).node
     n = 0
+    defs = flow.Defs(fn)
+
+    def ex(node, at):
+        try:
+            return ast.unparse(defs.expand(node, at=at))
+        except Exception:  # noqa: BLE001
+            return ast.unparse(node)
+
     for st in flow.walk(fn):
         s_ = st.stmt
-        if not (isinstance(s_, ast.Assign) and isinstance(s_.targets[0], ast.Subscript) and "self._name" in ast.unparse(s_.targets[0].slice)):
+        if not (isinstance(s_, ast.Assign) and isinstance(s_.targets[0], ast.Subscript) and "self._name" in ex(s_.targets[0].slice, s_)):
             continue
         n += 1
         cid = f"_indexing.LocSlice._layer:partition-task#{n}"
-        if "self.cindexer" in ast.unparse(s_.value):
+        none_guard = any(pol and isinstance(t, ast.Compare) and isinstance(t.ops[0], ast.Is) and ex(t.left, s_) == "self.cindexer" and ast.unparse(t.comparators[0]) == "None" for t, pol in flow.facts(st))
+        if "self.cindexer" in ex(s_.value, s_):
             ctx.ok(cid, c.module.loc(s_), "the task applies the column indexer")
-        elif any(pol and pmatch_none(t) for t, pol in flow.facts(st)):
+        elif none_guard:
             ctx.ok(cid, c.module.loc(s_), "plain copy only when there is no column indexer")
         else:
             ctx.bad(cid, c.module.loc(s_), f"`{ast.unparse(s_)[:100]}` copies a partition of the frame without applying `self.cindexer` and without being guarded by `self.cindexer is None`: interior partitions of df.loc[a:b, cols] keep every column of df while the first and last partition (and the declared schema) have only `cols`")
